@@ -1305,8 +1305,10 @@ class FunctionalDefaultConvexConjugate(Functional):
             raise TypeError('`func` {} is not a `Functional` instance'
                             ''.format(func))
 
+        # The convex conjugate of a linear functional is an indicator
+        # function, not a linear functional, so the flag is never inherited.
         super(FunctionalDefaultConvexConjugate, self).__init__(
-            space=func.domain, linear=func.is_linear)
+            space=func.domain, linear=False)
         self.__convex_conj = func
 
     @property
